@@ -228,6 +228,12 @@ def run(ctx):
         "tlc_lemmas": ["no prefix/suffix/infix grant", "'*' token anywhere grants", "empty level always granted",
                        "empty list grants nothing", "Tokens examples"],
     }
+    # growth: semantics of read / write / find (spec/Commands.tla); informs only (DRIFT lines), no listed property
+    try:
+        from checks import grow_commands
+        ctx.coverage["growth_commands"] = grow_commands.run_growth(ctx)
+    except Exception as e:   # a failing growth run is a machinery problem of the informing part only
+        ctx.notes.append("commands growth failed: %s" % str(e)[:300])
     ctx.assumptions = [
         "TLC evaluates the TLA+ definitions correctly; the harness logs what the daemon answered and what the fake transport was asked to write",
         "the hand-over to the bus thread is replaced by in-line stepping of the real handleSend/handleReceive "
